@@ -1,6 +1,6 @@
 #!/bin/bash
 # tools/benign.sh : every behaviour-preserving refactoring in benign/ against the checks of its area; reports rc (must never be 1)
-declare -A AREA=( [B1]="C01 C02 C17" [B2]="C10 C04 C01" [B3]="C05 C07 C15 C18" [B4]="C14 C06 C05" [B5]="C03 C11 C12 C16" [B6]="C08 C12 C13 C01" )
+declare -A AREA=( [B1]="C01 C02 C17" [B2]="C10 C04 C01" [B3]="C05 C07 C15 C18" [B4]="C14 C06 C05" [B5]="C03 C11 C12 C16" [B6]="C08 C12 C13 C01" [B7]="C03 C11 C12 C09 C04 C19" [B8]="C12 C08 C03" )
 bad=0
 for d in benign/B*-[123]; do
   b=$(basename $d | cut -d- -f1)
